@@ -329,3 +329,14 @@ w("C13", "index_strategy loses its fallback filter", "pandera/strategies/pandas_
   "            pass\n")
 w("C10", "Decimal.coerce uses .apply on an Index again", "pandera/engines/pandas_engine.py",
   "        if isinstance(data_container, pd.Index):\n            # an Index has no ``apply`` method\n            return data_container.map(self.coerce_value)\n", "")
+
+# ---- defects of the second hunt wave, repaired (d842528, 4ee22e7, ce2cdd2, 00edac0) -----------------------------------
+w("C06", "joint uniqueness selects an empty column list again (pandas)", BP + "container.py",
+  "            if not subset:\n                # none of the columns is in the dataframe, e.g. optional\n                # columns that were not supplied\n                continue\n            duplicates = check_obj.duplicated(", "            duplicates = check_obj.duplicated(")
+w("C01", "unique_column_names decided by the truth value of the labels again", BP + "container.py",
+  "        if len(failed) > 0:", "        if failed.any():")
+w("C20", "polars sample on the LazyFrame again", BL + "base.py",
+  "                check_obj.collect()\n                .sample(sample, seed=random_state)\n                .lazy()", "                check_obj.sample(sample, seed=random_state)")
+w("C02", "polars scalar failure case not cast to string again", BL + "base.py",
+  "                        \"failure_case\": pl.Utf8,\n                        \"check_number\": pl.Int32,\n                        \"column\": pl.String,\n                        \"index\": pl.Int32,\n                    }\n                )\n\n            failure_case_collection.append",
+  "                        \"check_number\": pl.Int32,\n                        \"column\": pl.String,\n                        \"index\": pl.Int32,\n                    }\n                )\n\n            failure_case_collection.append")
